@@ -41,6 +41,8 @@ import (
 	"verif/harness/hx"
 )
 
+var stmts0 int64 // stmtsSeen when the current case started (one case at a time per process)
+
 type KV struct {
 	K string `json:"k"`
 	V string `json:"v"`
@@ -57,6 +59,7 @@ type Obs struct {
 	JSONOk   bool     `json:"json_ok"`
 	Ms       int64    `json:"ms"`
 	Queries  int64    `json:"queries"`
+	Stmts    int64    `json:"stmts"` // statements issued, GetVersionInfo's bootstrap statements not counted
 	Followup string   `json:"followup,omitempty"` // a healthy request sent AFTER this one that was not answered (family: what)
 }
 
@@ -439,6 +442,7 @@ func runCase(c *Case, deadline time.Duration) *Obs {
 	base := census()
 	rows0 := atomic.LoadInt64(&openRows)
 	q0 := atomic.LoadInt64(&queriesSeen)
+	stmts0 = atomic.LoadInt64(&stmtsSeen)
 	ctx, cancel := context.WithCancel(context.Background())
 	req := buildRequest(c, ctx)
 	if req == nil {
@@ -515,6 +519,7 @@ func finishCase(c *Case, obs *Obs, rec *httptest.ResponseRecorder, cancel contex
 	var js interface{}
 	obs.JSONOk = json.Unmarshal(rec.Body.Bytes(), &js) == nil
 	obs.Queries = atomic.LoadInt64(&queriesSeen) - q0
+	obs.Stmts = atomic.LoadInt64(&stmtsSeen) - stmts0
 	// goroutines started for the request must be gone; give the scheduler a moment
 	var left []gor
 	waitMs := c.WaitMs
